@@ -293,12 +293,15 @@ def run_adev(ctx, n):
             import jax
             cj = jax.make_jaxpr(mk())(x)
             post = jax.make_jaxpr(lambda *a: prepass(cj.jaxpr, cj.consts, *a))(x).jaxpr
-            ids2 = []
-            m2 = model(translate(post, (pjax.adev_sample_p, pjax.sample_p), KINDS["adev"], ids2))
-            if m2["site_inline"] != m["inlined_site_inline"] or len(m2["sites"]) != len(m["inlined_sites"]):
+            # the pre-pass works on ONE jaxpr (cond branches get their own pass when forward_mode enters them), so for this comparison
+            # cond is not entered: kind table with the call-like primitives only
+            kp = {k: v for k, v in KINDS["adev"].items() if v == "inline"}
+            mp = model(translate(cj.jaxpr, (pjax.adev_sample_p, pjax.sample_p), kp, []))
+            m2 = model(translate(post, (pjax.adev_sample_p, pjax.sample_p), kp, []))
+            if m2["site_inline"] != mp["inlined_site_inline"] or len(m2["sites"]) != len(mp["inlined_sites"]):
                 ctx.correspondence_break("Interp.inlineCalls vs the ADEV pre-pass", f"after the real pre-pass: inline call in front of a site = {m2['site_inline']}, "
-                                         f"{len(m2['sites'])} sites; model: {m['inlined_site_inline']}, {len(m['inlined_sites'])} sites", case)
-            if (m2["old_handled"], m2["old_escaped"]) != (m["old_handled"], m["old_escaped"]) and len(m2["sites"]) == len(m["sites"]):
+                                         f"{len(m2['sites'])} sites; model: {mp['inlined_site_inline']}, {len(mp['inlined_sites'])} sites", case)
+            if (m2["old_handled"], m2["old_escaped"]) != (mp["old_handled"], mp["old_escaped"]) and len(m2["sites"]) == len(mp["sites"]):
                 ctx.correspondence_break("Interp.inlineCalls_runOld vs the ADEV pre-pass", "the pre-pass changed which sites reach the interpreter", case)
             ctx.count("interp:adev:prepass")
         else:
